@@ -22,39 +22,72 @@ def sources():
 
 
 def private_names(srcs):
-    names = collections.Counter()
+    """units to rename: ("__x", "<relpath>:<Class>") for name-mangled members - they are class-private, so one unit per defining
+    class - and ("_x", None) for single-underscore names (renamed everywhere)"""
+    units = set()
     for rel, s in srcs.items():
         t = ast.parse(s)
         for c in [n for n in ast.walk(t) if isinstance(n, ast.ClassDef)]:
+            names = set()
             for n in c.body:
                 if isinstance(n, (ast.FunctionDef, ast.AsyncFunctionDef)):
-                    names[n.name] += 1
+                    names.add(n.name)
                     for x in ast.walk(n):
                         if isinstance(x, ast.Attribute) and isinstance(x.ctx, ast.Store) and isinstance(x.value, ast.Name) and x.value.id == "self":
-                            names[x.attr] += 1
+                            names.add(x.attr)
                 elif isinstance(n, ast.AnnAssign) and isinstance(n.target, ast.Name):
-                    names[n.target.id] += 1
-    return sorted(n for n in names if n.startswith("_") and not (n.startswith("__") and n.endswith("__")))
+                    names.add(n.target.id)
+            for nm in names:
+                if not nm.startswith("_") or (nm.startswith("__") and nm.endswith("__")):
+                    continue
+                units.add((nm, f"{rel}:{c.name}") if nm.startswith("__") else (nm, None))
+    return sorted(units, key=lambda u: (u[0], u[1] or ""))
 
 
-def rename(src, old, new):
+class _Scoped(ast.NodeTransformer):
+    """rename `old` inside one class body only (name-mangled members)"""
+
+    def __init__(self, cls, old, new):
+        self.cls, self.old, self.new, self.hit = cls, old, new, False
+
+    def visit_ClassDef(self, node):
+        if node.name != self.cls:
+            return self.generic_visit(node)
+        for n in ast.walk(node):
+            self.hit |= _rename_node(n, self.old, self.new)
+        return node
+
+
+def _rename_node(n, old, new):
+    if isinstance(n, ast.Attribute) and n.attr == old:
+        n.attr = new; return True
+    if isinstance(n, (ast.FunctionDef, ast.AsyncFunctionDef)) and n.name == old:
+        n.name = new; return True
+    if isinstance(n, ast.keyword) and n.arg == old:
+        n.arg = new; return True
+    if isinstance(n, ast.AnnAssign) and isinstance(n.target, ast.Name) and n.target.id == old:
+        n.target.id = new; return True
+    if isinstance(n, ast.Assign) and any(isinstance(x, ast.Name) and x.id == "__slots__" for x in n.targets):
+        hit = False
+        for c in ast.walk(n.value):
+            if isinstance(c, ast.Constant) and c.value == old:
+                c.value = new; hit = True
+        return hit
+    if isinstance(n, ast.Name) and n.id == old:
+        n.id = new; return True
+    return False
+
+
+def rename(src, old, new, cls=None):
     t = ast.parse(src)
-    hit = False
-    for n in ast.walk(t):
-        if isinstance(n, ast.Attribute) and n.attr == old:
-            n.attr = new; hit = True
-        elif isinstance(n, (ast.FunctionDef, ast.AsyncFunctionDef)) and n.name == old:
-            n.name = new; hit = True
-        elif isinstance(n, ast.keyword) and n.arg == old:
-            n.arg = new; hit = True
-        elif isinstance(n, ast.AnnAssign) and isinstance(n.target, ast.Name) and n.target.id == old:
-            n.target.id = new; hit = True
-        elif isinstance(n, ast.Assign) and any(isinstance(x, ast.Name) and x.id == "__slots__" for x in n.targets):
-            for c in ast.walk(n.value):
-                if isinstance(c, ast.Constant) and c.value == old:
-                    c.value = new; hit = True
-        elif isinstance(n, ast.Name) and n.id == old:  # class-body references to a renamed method (decorators, aliases)
-            n.id = new; hit = True
+    if cls is not None:
+        tr = _Scoped(cls, old, new)
+        tr.visit(t)
+        hit = tr.hit
+    else:
+        hit = False
+        for n in ast.walk(t):
+            hit |= _rename_node(n, old, new)
     return (ast.unparse(t) + "\n") if hit else None
 
 
@@ -69,21 +102,22 @@ def findings(prop, overlay):
 
 
 def job(args):
-    name, prop, base = args
+    (name, owner), prop, base = args
     srcs = sources()
     ov = {}
     for rel, s in srcs.items():
-        if name in s:
-            r = rename(s, name, name + "_rn")
-            if r is not None:
-                ov[rel] = r
+        if name not in s or (owner is not None and rel != owner.split(":")[0]):
+            continue
+        r = rename(s, name, name + "_rn", owner.split(":")[1] if owner else None)
+        if r is not None:
+            ov[rel] = r
     try:
         got = findings(prop, ov)
     except Exception as e:  # noqa: BLE001
-        return name, prop, "ERROR", f"{type(e).__name__}: {str(e)[:160]}"
+        return (name, owner), prop, "ERROR", f"{type(e).__name__}: {str(e)[:160]}"
     if got != base:
-        return name, prop, "DIFF", f"+{sorted(got - base)[:3]} -{sorted(base - got)[:3]}"
-    return name, prop, "same", ""
+        return (name, owner), prop, "DIFF", f"+{sorted(got - base)[:3]} -{sorted(base - got)[:3]}"
+    return (name, owner), prop, "same", ""
 
 
 def main():
@@ -97,7 +131,7 @@ def main():
     write = "--write" in sys.argv
     sel = [a for a in sys.argv[1:] if not a.startswith("--")]
     if sel:
-        names = [n for n in names if n in sel]
+        names = [n for n in names if n[0] in sel]
     jobs = [(n, p, base[p]) for n in names for p in PROPS]
     res = collections.Counter()
     byname = collections.defaultdict(list)
@@ -111,11 +145,11 @@ def main():
         table = collections.defaultdict(list)
         for (st, name), lst in sorted(byname.items()):
             for prop, _ in lst:
-                table[prop].append(name)
-        json.dump({k: sorted(set(v)) for k, v in sorted(table.items())}, open(os.path.join(V, "anchor_names.json"), "w"), indent=1)
-        print("wrote anchor_names.json:", {k: len(set(v)) for k, v in sorted(table.items())})
+                table[prop].append(list(name))
+        json.dump({k: sorted(map(list, {tuple(x) for x in v}), key=lambda u: (u[0], u[1] or "")) for k, v in sorted(table.items())}, open(os.path.join(V, "anchor_names.json"), "w"), indent=1)
+        print("wrote anchor_names.json:", {k: len({tuple(x) for x in v}) for k, v in sorted(table.items())})
     for (st, name), lst in sorted(byname.items()):
-        print(st, name, " ".join(p for p, _ in lst), "|", lst[0][1][:200])
+        print(st, name[0], name[1] or "*", " ".join(p for p, _ in lst), "|", lst[0][1][:200])
     print(f"{len(names)} private names x {len(PROPS)} checks: {dict(res)}")
 
 
